@@ -11,7 +11,10 @@ gvars == <<s, pc, todo, runs, nw, fresh, hist, cur>>
 
 GInit == Init /\ hist = <<>> /\ cur = "-"
 
-Ended(stop) == hist' = Append(hist, [flow |-> cur, stop |-> stop, obs |-> Obs(s')]) /\ cur' = "-"
+\* started = number of calls of the flow that had been started when the process ended (the harness
+\* knows the same number for a real run from its progress marks: a coarse, model-independent position)
+Ended(stop) == hist' = Append(hist, [flow |-> cur, stop |-> stop, obs |-> Obs(s'),
+                                     started |-> Len(FlowDef[cur]) - Len(todo)]) /\ cur' = "-"
 
 GNext ==
   \/ \E fl \in DOMAIN FlowDef : Start(fl) /\ cur' = fl /\ hist' = hist
